@@ -37,7 +37,7 @@ type Result struct {
 	Evaluations  int64            `json:"evaluations"`
 	Inconclusive int64            `json:"inconclusive"`
 	Counters     map[string]int64 `json:"counters"`
-	Distinct     []string         `json:"distinct"`    // hex hashes of distinct non-trivial cases (capped)
+	Distinct     []string         `json:"distinct"`     // hex hashes of distinct non-trivial cases (capped)
 	DistinctCap  bool             `json:"distinct_cap"` // true if the cap was hit
 	Samples      []interface{}    `json:"samples"`
 	Violations   []Violation      `json:"violations"`
